@@ -162,6 +162,13 @@ class StructGen:
             if view.snap[v].get("cls") == "Vertex" and v.startswith("mv")
         ]
 
+    ARG_KINDS = ["tuple", "iter", "gen", "dictkeys", "reversed2"]
+
+    def arg_kind(self, rng, op):
+        """Hand the sequence argument over as some other kind of iterable."""
+        if rng.random() < self.cfg.get("p_arg_kind", 0.35):
+            op["as"] = rng.choice(self.ARG_KINDS)
+
     def edge_class(self, rng):
         return rng.choice(self.cfg["edge_classes"])
 
@@ -305,13 +312,15 @@ class StructGen:
             return None
         k = rng.choice([1, 1, 2, 3])
         links = [rng.choice(es) for _ in range(k)]
-        return {
+        op = {
             "op": "mk_vertex",
             "new": namer.new("v"),
             "cls": rng.choice(self.cfg.get("vertex_classes", ["Vertex"])),
             "links": links,
             "tag": rng.randrange(6),
         }
+        self.arg_kind(rng, op)
+        return op
 
     def g_mk_vertex(self, rng, view, namer):
         if len(view.vertices()) >= self.cfg.get("max_vertices", 9):
@@ -427,13 +436,15 @@ class StructGen:
             return None
         k = rng.choice([1, 1, 2, 3])
         unis = [rng.choice(us) for _ in range(k)]
-        return {
+        op = {
             "op": "mk_vertex",
             "new": namer.new("v"),
             "cls": rng.choice(self.cfg.get("vertex_classes", ["Vertex"])),
             "universes": unis,
             "tag": rng.randrange(6),
         }
+        self.arg_kind(rng, op)
+        return op
 
     def g_mk_universe_verts(self, rng, view, namer):
         if len(view.universes()) >= self.cfg.get("max_universes", 4):
@@ -443,13 +454,15 @@ class StructGen:
             vs = view.plain_vertices()
         k = rng.choice([0, 1, 2, 3, 4]) if vs else 0
         members = [rng.choice(vs) for _ in range(k)]
-        return {
+        op = {
             "op": "mk_universe",
             "new": namer.new("u"),
             "cls": rng.choice(self.cfg.get("universe_classes", ["Universe"])),
             "vertices": members,
             "tag": rng.randrange(6),
         }
+        self.arg_kind(rng, op)
+        return op
 
     # reads ----------------------------------------------------------------------
     def read_settings(self, rng):
